@@ -26,17 +26,24 @@ StateRec ==
 
 Header ==
   [ targets |-> Targets, order |-> Order, decldeps |-> DeclDeps, aliases |-> Aliases, outkind |-> OutKind,
-    infiles |-> InFiles, globt |-> GlobT, checkt |-> CheckT, alias0 |-> hist[1].alias0, files0 |-> hist[1].files0, maxsteps |-> MaxSteps ]
+    infiles |-> InFiles, globt |-> GlobT, checkt |-> CheckT, toolt |-> ToolT, alias0 |-> hist[1].alias0, files0 |-> hist[1].files0, maxsteps |-> MaxSteps ]
 
-KindRank(k) == CASE k = "edit" -> 1 [] k = "taint" -> 2 [] k = "breakext" -> 3 [] k = "corruptresults" -> 4 [] k = "dropblob" -> 5 [] k = "perturb" -> 6
-                 [] k = "platform" -> 7 [] k = "relocate" -> 8 [] OTHER -> 0
+KindRank(k) == CASE k = "edit" -> 1 [] k = "taint" -> 2 [] k = "breakext" -> 3 [] k = "breaktool" -> 4 [] k = "corruptresults" -> 5 [] k = "dropblob" -> 6 [] k = "perturb" -> 7
+                 [] k = "platform" -> 8 [] k = "relocate" -> 9 [] OTHER -> 0
 Pos(t) == IF \E i \in 1..Len(Order) : Order[i] = t THEN CHOOSE i \in 1..Len(Order) : Order[i] = t ELSE 0
-HasT(l) == l.kind \in {"edit", "taint", "perturb", "breakext", "dropblob"}
+HasT(l) == l.kind \in {"edit", "taint", "perturb", "breakext", "breaktool", "dropblob"}
 CanonOK ==
   CASE Canonical = "kinds" -> KindRank(last.kind) < KindRank(last'.kind)
     [] Canonical = "sink"  -> /\ \/ KindRank(last.kind) < KindRank(last'.kind)
                                  \/ KindRank(last.kind) = KindRank(last'.kind) /\ HasT(last) /\ HasT(last') /\ Pos(last.t) < Pos(last'.t)
                               /\ last'.kind = "edit" => last'.t = Order[Len(Order)]
+                              /\ last'.kind = "perturb" => ws'[last'.t] = Absent
+    \* "fan": the shared dependency of several executing dependants -- edits only of the targets between the first and the last,
+    \* blobs dropped and outputs deleted only for the first target, in increasing order of (kind, target)
+    [] Canonical = "fan"   -> /\ \/ KindRank(last.kind) < KindRank(last'.kind)
+                                 \/ KindRank(last.kind) = KindRank(last'.kind) /\ HasT(last) /\ HasT(last') /\ Pos(last.t) < Pos(last'.t)
+                              /\ last'.kind = "edit" => (last'.t # Order[1] /\ last'.t # Order[Len(Order)])
+                              /\ last'.kind \in {"dropblob", "perturb"} => last'.t = Order[1]
                               /\ last'.kind = "perturb" => ws'[last'.t] = Absent
     [] Canonical = "first" -> last'.kind = "edit" => last'.t = Order[1]      \* edits only of the first target, in any order
     [] OTHER -> TRUE
